@@ -418,14 +418,21 @@ def dict_creation(chk, thorough):
             for vs in vsh:
                 cases.append((kind, [(ks, vs)]))
     # two entries: unique first dimension
+    # (a batch of ZERO rows is a first dimension like any other: 0 next to 2 is a contradiction, 0 next to 0 is not)
     for kind in (2, 4):
-        for a in (1, 2, 3):
-            for b in (1, 2, 3):
+        for a in (0, 1, 2, 3):
+            for b in (0, 1, 2, 3):
                 ks1, ks2 = (2,), ()
                 if kind == 2:
                     cases.append((kind, [(ks1, (a,) + ks1), (ks2, (b,) + ks2)]))
                 else:
                     cases.append((kind, [(ks1, (a, 2)), (ks2, (b, 1))]))
+        for dims in ((0, 0, 2), (0, 2, 2), (2, 0, 2), (0, 0, 0), (2, 2, 0), (1, 1, 1), (3, 0, 0)):
+            kss = [(2,), (), (1,)]
+            if kind == 2:
+                cases.append((kind, [(ks, (d,) + ks) for ks, d in zip(kss, dims)]))
+            else:
+                cases.append((kind, [(ks, (d, ajlib.numel(ks))) for ks, d in zip(kss, dims)]))
     cases.append((0, []))
     for kind in (1, 2, 3, 4, 5):
         cases.append((kind, []))
